@@ -29,8 +29,9 @@ Open Scope bool_scope.
    faithful copy of the source entry or both have nothing, AND two copied regular files share
    an inode iff their sources do.  (_partial: one literal source; wildcards are C15's.)
    [landing_clear]: the directories MkdirAll makes for the dst argument do not lie below the
-   landing path unless the source has them too (false for dst = "a/x/.." with dir-contents:
-   ensureDstPath makes a/x, the copy lands in a; see ex_dotdot_extra_directory). *)
+   landing path unless the source has them too.  (It was violated by dst = "a/x/.." before
+   ensureDstPath learnt to ignore a final ".." - finding dst-dotdot-extra-directory, repaired,
+   see ex_dotdot_repaired; it is kept as a hypothesis because it is not derived from dst here.) *)
 Theorem copy_into_empty_faithful_partial :
   forall o sroot, wf_src sroot -> links_consistent sroot ->
   forall fs src dst r ms sn L m,
@@ -143,13 +144,13 @@ Example ex_options :
   end = true.
 Proof. vm_compute. reflexivity. Qed.
 
-(* why landing_clear is a hypothesis: dst = "a/x/.." with dir-contents creates a/x and copies
-   the contents of d into a, so a/x is an entry the source does not have *)
-Example ex_dotdot_extra_directory :
+(* the former finding dst-dotdot-extra-directory, repaired: dst = "a/x/.." with dir-contents
+   copies the contents of d into a and no longer creates a/x (ensureDstPath ignores a final "..") *)
+Example ex_dotdot_repaired :
   match copy_top o_dc sel_all ex_src fs_empty n_d [97; 47; 120; 47; 46; 46] with
   | (st', None) =>
       (match lstat (c_fs st') [n_a; n_f], lstat (c_fs st') [n_a; n_x] with
-       | Some f, Some x => is_reg f && is_dir x | _, _ => false end)
+       | Some f, None => is_reg f | _, _ => false end)
   | _ => false
   end = true.
 Proof. vm_compute. reflexivity. Qed.
